@@ -46,6 +46,14 @@ m('c01-backwards-wrap', 'C01', 'sound/transport.rs',
   '\t\t\tif self.position <= loop_start {\n\t\t\t\t// step forwards by as many whole loop lengths as it takes\n\t\t\t\t// to get past the start of the loop region (which can be\n\t\t\t\t// any distance away from the audio)\n\t\t\t\tlet loop_length = loop_end - loop_start;\n\t\t\t\tlet distance = loop_start - self.position;\n\t\t\t\tself.position += (distance / loop_length + 1) * loop_length;\n\t\t\t}',
   '\t\t\twhile self.position <= loop_start {\n\t\t\t\tself.position += loop_end - loop_start;\n\t\t\t}',
   'A.loop|sound::transport::Transport::decrement_position', 'playing backwards wraps one loop length at a time again', reverse_of='played backwards below')
+m('c12-queued-ignored', 'C12', 'track/sub.rs',
+  '\t\t\tself.shared().is_marked_for_removal()\n\t\t\t\t&& self.sounds.is_empty()\n\t\t\t\t&& !self.sounds.has_pending()',
+  '\t\t\tself.shared().is_marked_for_removal() && self.sounds.is_empty()',
+  'B.C12.remove|path-predicate', 'a persisting track no longer waits for a sound that is still queued', reverse_of='still queued')
+m('c12-queued-child-ignored', 'C12', 'track/sub.rs',
+  '\t\tif self.sub_tracks.has_pending()\n\t\t\t|| self\n\t\t\t\t.sub_tracks\n\t\t\t\t.iter()\n\t\t\t\t.any(|(_, sub_track)| !sub_track.should_be_removed())\n\t\t{',
+  '\t\tif self\n\t\t\t.sub_tracks\n\t\t\t.iter()\n\t\t\t.any(|(_, sub_track)| !sub_track.should_be_removed())\n\t\t{',
+  'B.C12.remove|path-predicate', 'a track no longer waits for a child track that is still queued', reverse_of='still queued')
 m('c01-seek-wrap', 'C01', 'sound/transport.rs',
   '\t\t\tif position > self.position {\n\t\t\t\tif position >= loop_end {\n\t\t\t\t\tposition = loop_start + (position - loop_start) % loop_length;\n\t\t\t\t}\n\t\t\t} else if position < loop_start {\n\t\t\t\tlet distance = loop_start - position;\n\t\t\t\tposition = loop_start + (loop_length - distance % loop_length) % loop_length;\n\t\t\t}',
   '\t\t\tif position > self.position {\n\t\t\t\twhile position >= loop_end {\n\t\t\t\t\tposition -= loop_length;\n\t\t\t\t}\n\t\t\t} else {\n\t\t\t\twhile position < loop_start {\n\t\t\t\t\tposition += loop_length;\n\t\t\t\t}\n\t\t\t}',
